@@ -462,7 +462,7 @@ theorem recv_array (n : Nat) (ih : Sound cfg sfh n) (e : Ty) (r : Rng) (b : Ty) 
         have hcond : ¬(ts'.isEmpty = true) := by rw [hts]; simp
         have h2 := h.2
         rw [if_neg hz, if_neg hcond] at h2
-        have hall := (asgAllR_iff cfg sfh e ts').1 h2
+        have hall := (tupZipL_iff cfg sfh e ts' _ hne).1 h2
         have hzip : instZip cfg sfh ts' vs = true := by
           rcases hi.2 with h2 | h2
           · simp [hts] at h2
@@ -475,7 +475,9 @@ theorem recv_array (n : Nat) (ih : Sound cfg sfh n) (e : Ty) (r : Rng) (b : Ty) 
         have ht := List.getElem?_eq_getElem hlen
         have hm : ts'[min i (ts'.length - 1)] ∈ ts' := List.getElem_mem hlen
         have hix := hzip i _ x ht (by rw [List.getElem?_eq_getElem hlt, hget])
-        exact ih e _ x (by have := Ty.w_lt_wl hm; omega) ⟨fa, fb _ hm, wa, wb _ hm, us' _ hm, H.ok.elems x hx, H.tv.elems x hx⟩ (hall _ hm) hix
+        have hreach : ((min i (ts'.length - 1) : Nat) : Int) < (tupleSize ts' g').hi := by
+          have := hi.1; simp [Rng.contains] at this; omega
+        exact ih e _ x (by have := Ty.w_lt_wl hm; omega) ⟨fa, fb _ hm, wa, wb _ hm, us' _ hm, H.ok.elems x hx, H.tv.elems x hx⟩ (hall _ _ hreach ht) hix
 
 theorem length_zero_of_contains {r : Rng} {n : Nat} (h : r.contains n = true) (hz : r.hi ≤ 0) : n = 0 := by
   simp [Rng.contains] at h; omega
@@ -581,17 +583,23 @@ theorem recv_tuple (n : Nat) (ih : Sound cfg sfh n) (ts : List Ty) (g : Option R
         rcases us with us | us
         · exact absurd us hpos
         · exact us
-      have hall : asgAllL cfg sfh ts e' = true := by
+      have hall : tupZip cfg sfh ts [e'] r'.hi = true := by
         rcases h.2 with (h2 | h2) | h2
         · simp [List.isEmpty_iff] at h2; exact absurd h2 hts
         · simp at h2; omega
         · exact h2
+      have hilt : i < vs.length := by
+        rcases Nat.lt_or_ge i vs.length with h | h
+        · exact h
+        · rw [List.getElem?_eq_none h] at hx; cases hx
+      have hreach : ((min i (ts.length - 1) : Nat) : Int) < r'.hi := by
+        have := hi.1; simp [Rng.contains] at this; omega
       have hx' : inst cfg sfh e' x = true := by
         rcases hi.2 with h2 | h2
         · exact inst_of_isAny cfg sfh h2 x
         · exact (instAll_iff cfg sfh e' vs).1 h2 x hxm
       exact ih t e' x (by have := Ty.w_lt_wl hm; omega) ⟨fa t hm, fb, wa t hm, wb, us', H.ok.elems x hxm, H.tv.elems x hxm⟩
-        ((asgAllL_iff cfg sfh ts e').1 hall t hm) hx'
+        ((tupZipR_iff cfg sfh ts e' _ hts).1 hall _ t hreach ht) hx'
   · -- tuple
     rename_i ts' g'
     have fb := H.fb; unfold Ty.Frag at fb
@@ -623,12 +631,20 @@ theorem recv_tuple (n : Nat) (ih : Sound cfg sfh n) (ts : List Ty) (g : Option R
         rcases us with us | us
         · exact absurd us hpos
         · exact us
-      have h2 : (if ts'.isEmpty = true then ((tupleSize ts' g').hi == 0) = true else tupZip cfg sfh ts ts' (tupleSize ts' g').hi = true) := by
+      have h2 : (if ts'.isEmpty = true then tupZip cfg sfh ts [.any] (tupleSize ts' g').hi = true else tupZip cfg sfh ts ts' (tupleSize ts' g').hi = true) := by
         rcases h.2 with h2 | h2
         · simp [List.isEmpty_iff] at h2; exact absurd h2 hts
         · split at h2 <;> simp_all
       by_cases hts' : ts' = []
-      · simp [hts'] at h2; subst hts'; omega
+      · -- the other tuple is untyped: every reachable position of this one accepts Any
+        subst hts'
+        simp only [List.isEmpty_nil, if_true] at h2
+        have hreach : ((min i (ts.length - 1) : Nat) : Int) < (tupleSize [] g').hi := by
+          have := hi.1; simp [Rng.contains] at this; omega
+        have hany := (tupZipR_iff cfg sfh ts .any _ hts).1 h2 _ t hreach ht
+        exact ih t .any x (by have := Ty.w_lt_wl hm; simp only [Ty.w, Ty.wl] at hw ⊢; omega)
+          ⟨fa t hm, by unfold Ty.Frag; trivial, wa t hm, by unfold Ty.WF; trivial, by unfold Ty.US; trivial,
+            H.ok.elems x hxm, H.tv.elems x hxm⟩ hany (by unfold inst; rfl)
       · have hne' : ¬ (ts'.isEmpty = true) := by simp [List.isEmpty_iff, hts']
         rw [if_neg hne'] at h2
         rw [tupZip_iff cfg sfh ts ts' _ hts hts'] at h2
